@@ -492,12 +492,10 @@ func pagedListContract(p *Prog, r *Report, q string) {
 		return
 	}
 	n := 0
-	for _, ret := range allReturns(fn) {
-		if p.exitKind(c.x, ret) == "error" {
-			continue
-		}
+	for _, sr := range c.successResults() {
+		ret := sr.ret
 		n++
-		_, fields, ok := c.litFields(c.x.Of(ret.Results[0], ret))
+		_, fields, ok := c.litFields(sr.vals[0])
 		if !ok {
 			r.undecided("D-list-order", "D-list-order/"+q+"/response", p.instrPos(ret), "response is not a literal")
 			continue
